@@ -1,4 +1,122 @@
-(* C08 - traversal paths are sound and complete; identity traversal rebuilds faithfully. *)
-From Fiddle Require Import PyBase PySlice Sig ArgStore PyCall Heap Traverse Anchors.
+(* C08 - traversal paths are sound and complete; identity traversal rebuilds faithfully.
+   Model: Traverse.iter_basic (daglish.iterate, un-memoized), Traverse.iter_memo (memoized),
+   Traverse.paths_to (collect_paths_by_id), Heap.follow (PathElement.follow).  Statements only;
+   proofs are in theories/Iterate_proofs.v.
+   Hypotheses: wf_b = children point to smaller ids (acyclic); keys_ok = dict / named-tuple keys
+   are distinct, as in Python (follow looks a key up by first match); root_ok = the root is not a
+   dangling pointer.  Hypotheses a statement does not need have been dropped. *)
+From Fiddle Require Import PyBase PySlice Sig ArgStore PyCall Heap Traverse Build Build_stmt
+  Traverse_proofs Build_proofs Iterate_proofs Anchors.
+From Coq Require Import List.
+Import ListNotations.
+Local Open Scope nat_scope.
 
-Example C08_placeholder : True. Proof. exact I. Qed.
+(* Every (value, path) pair the un-memoized iteration reports is what following the path from the
+   root gives - whatever the depth bound. *)
+Theorem C08_iter_basic_sound : forall e h, keys_ok h -> forall fuel r v p,
+  In (v, p) (iter_basic e h fuel r []) -> follow e h r p = Some v.
+Proof. exact iter_basic_sound. Qed.
+Print Assumptions C08_iter_basic_sound.
+
+(* Every path that can be followed from the root is reported, with the value it leads to. *)
+Theorem C08_iter_basic_complete : forall e h, wf_b e h = true -> forall r v p,
+  follow e h r p = Some v -> In (v, p) (iter_basic e h (S (length h)) r []).
+Proof. exact iter_basic_complete. Qed.
+Print Assumptions C08_iter_basic_complete.
+
+(* Every path is reported exactly once. *)
+Theorem C08_iter_basic_nodup : forall e h, keys_ok h -> forall fuel r,
+  NoDup (map snd (iter_basic e h fuel r [])).
+Proof. exact iter_basic_nodup. Qed.
+Print Assumptions C08_iter_basic_nodup.
+
+(* collect_paths_by_id: the paths listed for an object are exactly the paths that lead to it, each
+   once. *)
+Theorem C08_paths_to_exact : forall e h, wf_b e h = true -> keys_ok h -> forall r i,
+  (forall p, In p (paths_to e h (S (length h)) r i) <-> follow e h r p = Some (RP i)) /\
+  NoDup (paths_to e h (S (length h)) r i).
+Proof. exact paths_to_exact. Qed.
+Print Assumptions C08_paths_to_exact.
+
+(* The memoized iteration only reports correct paths, in either mode, from any memo. *)
+Theorem C08_iter_memo_sound : forall e h mi, keys_ok h -> forall fuel seen r v p,
+  In (v, p) (snd (iter_memo e h mi fuel seen r [])) -> follow e h r p = Some v.
+Proof. exact iter_memo_sound. Qed.
+Print Assumptions C08_iter_memo_sound.
+
+(* memoize_internables = False: every reachable object that is not internable (every mutable
+   object, every tuple that holds one) is yielded exactly once; only reachable objects are
+   yielded. *)
+Theorem C08_iter_memo_once : forall e h r,
+  wf_b e h = true -> keys_ok h -> root_ok h r ->
+  let ys := snd (iter_memo e h false (S (length h)) [] r []) in
+  (forall i, reach e h r i -> internable h (S (length h)) (RP i) = false ->
+             count_occ ref_eq_dec (map fst ys) (RP i) = 1) /\
+  (forall i, In (RP i) (map fst ys) -> reach e h r i).
+Proof. exact iter_memo_once. Qed.
+Print Assumptions C08_iter_memo_once.
+
+(* memoize_internables = True: the objects yielded exactly once are exactly the reachable ones. *)
+Theorem C08_iter_memo_once_all : forall e h r,
+  wf_b e h = true -> keys_ok h -> root_ok h r ->
+  let ys := snd (iter_memo e h true (S (length h)) [] r []) in
+  forall i, reach e h r i <-> count_occ ref_eq_dec (map fst ys) (RP i) = 1.
+Proof. exact iter_memo_once_all. Qed.
+Print Assumptions C08_iter_memo_once_all.
+
+(* In either mode nothing that has an identity for the traversal (a function or class, an object
+   the mode memoizes) is yielded twice - with no hypothesis on the heap at all. *)
+Theorem C08_iter_memo_at_most_once : forall e h mi fuel r p x,
+  has_id h mi x = true ->
+  count_occ ref_eq_dec (map fst (snd (iter_memo e h mi fuel [] r p))) x <= 1.
+Proof. exact iter_memo_at_most_once. Qed.
+Print Assumptions C08_iter_memo_at_most_once.
+
+(* The path under which such an object is yielded is its first path: the head of what
+   collect_paths_by_id lists for it. *)
+Theorem C08_iter_memo_first : forall e h r,
+  wf_b e h = true -> keys_ok h -> root_ok h r ->
+  forall i p, In (RP i, p) (snd (iter_memo e h false (S (length h)) [] r [])) ->
+    internable h (S (length h)) (RP i) = false ->
+    hd_error (paths_to e h (S (length h)) r i) = Some p.
+Proof. exact iter_memo_first. Qed.
+Print Assumptions C08_iter_memo_first.
+
+Theorem C08_iter_memo_first_all : forall e h r,
+  wf_b e h = true -> keys_ok h -> root_ok h r ->
+  forall i p, In (RP i, p) (snd (iter_memo e h true (S (length h)) [] r [])) ->
+    hd_error (paths_to e h (S (length h)) r i) = Some p.
+Proof. exact iter_memo_first_all. Qed.
+Print Assumptions C08_iter_memo_first_all.
+
+(* Memoization only removes entries. *)
+Theorem C08_iter_memo_subset : forall e h mi,
+  wf_b e h = true -> keys_ok h -> forall fuel seen r v p,
+  In (v, p) (snd (iter_memo e h mi fuel seen r [])) -> In (v, p) (iter_basic e h (S (length h)) r []).
+Proof. exact iter_memo_subset. Qed.
+Print Assumptions C08_iter_memo_subset.
+
+(* Non-vacuity: a heap in which one list is shared by a Config, a dict and a tuple (three paths)
+   and an internable tuple is shared too (two paths); it satisfies the hypotheses above. *)
+Example C08_example_hyps :
+  wf_b ex_env ex_heap = true /\ keys_ok ex_heap /\ root_ok ex_heap ex_root.
+Proof. exact ex_hyps. Qed.
+Print Assumptions C08_example_hyps.
+
+Example C08_nonvacuous :
+  let fuel := S (length ex_heap) in
+  paths_to ex_env ex_heap fuel ex_root 0 =
+    [[PKey (AStr [1%N]); PAttr 1%N]; [PKey (AStr [2%N])]; [PKey (AStr [4%N]); PIndex 0]] /\
+  paths_to ex_env ex_heap fuel ex_root 1 =
+    [[PKey (AStr [1%N]); PAttr 2%N]; [PKey (AStr [3%N])]] /\
+  length (iter_basic ex_env ex_heap fuel ex_root []) = 17 /\
+  count_occ ref_eq_dec (map fst (iter_basic ex_env ex_heap fuel ex_root [])) (RP 0) = 3 /\
+  internable ex_heap fuel (RP 0) = false /\ internable ex_heap fuel (RP 1) = true /\
+  internable ex_heap fuel (RP 2) = false /\
+  filter (fun vp => ref_eqb (fst vp) (RP 0)) (snd (iter_memo ex_env ex_heap false fuel [] ex_root []))
+    = [(RP 0, [PKey (AStr [1%N]); PAttr 1%N])] /\
+  count_occ ref_eq_dec (map fst (snd (iter_memo ex_env ex_heap false fuel [] ex_root []))) (RP 1) = 2 /\
+  count_occ ref_eq_dec (map fst (snd (iter_memo ex_env ex_heap true fuel [] ex_root []))) (RP 1) = 1 /\
+  length (snd (iter_memo ex_env ex_heap false fuel [] ex_root [])) = 11.
+Proof. exact iterate_nonvacuous. Qed.
+Print Assumptions C08_nonvacuous.
